@@ -58,9 +58,18 @@ def _callee_path(term):
     return None, False
 
 
+# Known private helpers that are *always* spliced into their callers: the rules that concern them are written
+# against the caller (a region of it), so that the tree where the helper exists and the tree where a maintainer
+# inlined it by hand are one and the same shape for the analysis.  One line of reason each.
+ALWAYS_INLINE = {
+    "reader::prefix_iter::move_on_last_prefix",   # C05-R3 reads the first-call region of RevPrefixIter::next
+    "sorter::Sorter::<MF, CC>::threshold_exceeded",   # C08-R1/R2 read the budget comparison as an atom of Sorter::insert's condition
+}
+
+
 def inline_unknown_helpers(raw, max_rounds=4):
     """raw: the fact file dict; mutates raw['bodies'] and returns the list of (caller, callee) inlined"""
-    known = known_fns()
+    known = known_fns() - ALWAYS_INLINE
     by_path = {}
     for b in raw["bodies"]:
         by_path.setdefault(b["path"], []).append(b)
